@@ -449,6 +449,11 @@ def build_model(spec, kind='transmission', **model_kw):
         # the array it was given, so a caller who refills it in place moves the model's grid (see move_pressure_range)
         from taurex.data.profiles.pressure import ArrayPressureProfile
         p_array = layer_pressures(spec['pmax'], spec['pmin'], spec['nlayers'])
+        if spec.get('pressure_dtype'):
+            # the caller's array in another representation (whole pascals as integers, single precision)
+            q_ = np.round(p_array).astype(spec['pressure_dtype']) if 'int' in spec['pressure_dtype'] else p_array.astype(spec['pressure_dtype'])
+            if np.all(np.diff(q_.astype(float)) < 0) and float(q_[-1]) >= 1:
+                p_array = q_
         pressure = ArrayPressureProfile(p_array)
     else:
         pressure = SimplePressureProfile(nlayers=spec['nlayers'], atm_min_pressure=spec['pmin'],
